@@ -69,6 +69,53 @@ class _Walker:
         self.out: List[Site] = []
         self.i = 0
 
+    def gatoms(self, test: ast.AST, pol: bool):
+        """atoms(test, pol) plus, for an atom that is a function-local boolean defined once (`emit = flag and a == b`;
+        `if emit:`), the atoms of its definition: the decision was taken on them (dominance rules ask what a
+        statement's execution was decided by, not what still holds when it runs)."""
+        out = list(atoms(test, pol))
+        for e, p_ in list(out):
+            if isinstance(e, ast.Name):
+                d = self._local_def(e.id)
+                if d is not None:
+                    for a in atoms(d, p_):
+                        if not (isinstance(a[0], ast.Name) and a[0].id == e.id):
+                            out.append(a)
+        return out
+
+    def _local_def(self, name: str):
+        if not hasattr(self, "_defs"):
+            self._defs = {}
+            counts = {}
+            try:
+                nodes = list(self.fn.direct_nodes())
+            except Exception:  # noqa: BLE001
+                nodes = []
+            for n in nodes:
+                tg = None
+                if isinstance(n, ast.Assign) and len(n.targets) == 1 and isinstance(n.targets[0], ast.Name):
+                    tg, val = n.targets[0].id, n.value
+                elif isinstance(n, ast.AnnAssign) and isinstance(n.target, ast.Name) and n.value is not None:
+                    tg, val = n.target.id, n.value
+                elif isinstance(n, (ast.AugAssign, ast.NamedExpr)) and isinstance(getattr(n, "target", None), ast.Name):
+                    counts[n.target.id] = counts.get(n.target.id, 0) + 2
+                if tg is not None:
+                    counts[tg] = counts.get(tg, 0) + 1
+                    self._defs[tg] = val
+            owned = getattr(self.fn, "params", [])
+            for k in list(self._defs):
+                v = self._defs[k]
+                if counts.get(k) != 1 or k in owned or not isinstance(v, (ast.BoolOp, ast.Compare, ast.UnaryOp)) \
+                        or (isinstance(v, ast.UnaryOp) and not isinstance(v.op, ast.Not)):
+                    del self._defs[k]
+            nl = set()
+            for n in nodes:
+                if isinstance(n, (ast.Nonlocal, ast.Global)):
+                    nl |= set(n.names)
+            for k in nl:
+                self._defs.pop(k, None)
+        return self._defs.get(name)
+
     def emit(self, node: ast.AST, stmt: ast.stmt, ctx: Ctx) -> None:
         self.out.append(Site(node, stmt, ctx, self.i, self.fn))
         self.i += 1
@@ -86,9 +133,9 @@ class _Walker:
         if isinstance(e, ast.IfExp):
             self.emit(e, stmt, ctx)
             self.expr(e.test, stmt, ctx)
-            self.expr(e.body, stmt, ctx.with_(guards=ctx.guards + tuple(atoms(e.test, True)),
+            self.expr(e.body, stmt, ctx.with_(guards=ctx.guards + tuple(self.gatoms(e.test, True)),
                                               branch=ctx.branch + ((id(e), "body"),)))
-            self.expr(e.orelse, stmt, ctx.with_(guards=ctx.guards + tuple(atoms(e.test, False)),
+            self.expr(e.orelse, stmt, ctx.with_(guards=ctx.guards + tuple(self.gatoms(e.test, False)),
                                                 branch=ctx.branch + ((id(e), "orelse"),)))
             return
         if isinstance(e, ast.BoolOp):
@@ -97,7 +144,7 @@ class _Walker:
             for k, v in enumerate(e.values):
                 self.expr(v, stmt, cur)
                 pol = isinstance(e.op, ast.And)
-                cur = cur.with_(guards=cur.guards + tuple(atoms(v, pol)),
+                cur = cur.with_(guards=cur.guards + tuple(self.gatoms(v, pol)),
                                 branch=cur.branch + ((id(e), f"rhs{k}"),))
             return
         self.emit(e, stmt, ctx)
@@ -131,11 +178,11 @@ class _Walker:
                 b_exit = block_always_exits(st.body)
                 o_exit = bool(st.orelse) and block_always_exits(st.orelse)
                 if b_exit and not o_exit:
-                    cur = cur.with_(guards=cur.guards + tuple(atoms(st.test, False)))
+                    cur = cur.with_(guards=cur.guards + tuple(self.gatoms(st.test, False)))
                 elif o_exit and not b_exit:
-                    cur = cur.with_(guards=cur.guards + tuple(atoms(st.test, True)))
+                    cur = cur.with_(guards=cur.guards + tuple(self.gatoms(st.test, True)))
             elif isinstance(st, ast.Assert):
-                cur = cur.with_(guards=cur.guards + tuple(atoms(st.test, True)))
+                cur = cur.with_(guards=cur.guards + tuple(self.gatoms(st.test, True)))
         return cur.guards[n0:]
 
     def stmt(self, st: ast.stmt, ctx: Ctx) -> Tuple[Atom, ...]:
@@ -150,13 +197,13 @@ class _Walker:
         self.emit(st, st, ctx)
         if isinstance(st, ast.If):
             self.expr(st.test, st, ctx)
-            self.block(st.body, ctx.with_(guards=ctx.guards + tuple(atoms(st.test, True)),
+            self.block(st.body, ctx.with_(guards=ctx.guards + tuple(self.gatoms(st.test, True)),
                                           branch=ctx.branch + ((id(st), "body"),)))
-            self.block(st.orelse, ctx.with_(guards=ctx.guards + tuple(atoms(st.test, False)),
+            self.block(st.orelse, ctx.with_(guards=ctx.guards + tuple(self.gatoms(st.test, False)),
                                             branch=ctx.branch + ((id(st), "orelse"),)))
         elif isinstance(st, ast.While):
             self.expr(st.test, st, ctx.with_(loops=ctx.loops + (st,)))
-            self.block(st.body, ctx.with_(guards=ctx.guards + tuple(atoms(st.test, True)),
+            self.block(st.body, ctx.with_(guards=ctx.guards + tuple(self.gatoms(st.test, True)),
                                           loops=ctx.loops + (st,),
                                           branch=ctx.branch + ((id(st), "body"),)))
             self.block(st.orelse, ctx.with_(branch=ctx.branch + ((id(st), "orelse"),)))
